@@ -238,6 +238,14 @@ def firstWaiting (b : Bot.St) : Option Nat := (thinkers b).findIdx? (fun t => t.
 real loop ask again for ever) -/
 def callCap : Nat := 200
 
+/-- the verdicts the harness lets a call see: a check engine never claims a win in one on the start position (C05:
+no road on an empty board), and `waitUndo` would index `Positions[len-2]` of a one-position record if it did
+(`C07.ChkOK` is this restriction as a hypothesis; `current_thinker_total`) -/
+def saneChk (b : Bot.St) (k : Nat) (chk : CheckOracle) : CheckOracle :=
+  match thinkerAt b k with
+  | some t => if t.pos.move ≤ 0 && asksPrev chk then { curV := 0, curDepth := 3, prevV := 0 } else chk
+  | none => chk
+
 /-- one spontaneous step, if there is one: the call in progress returns unless it waits for the searching player
 (`think`) or for its context (`resign`, not yet cancelled); with the lock free the first parked thinker takes it -/
 def spont [Inhabited χ] (c : Conf) (S : Searcher σ χ) (chk : CheckOracle) (s : St σ χ) : Option (St σ χ) :=
@@ -252,7 +260,7 @@ def spont [Inhabited χ] (c : Conf) (S : Searcher σ χ) (chk : CheckOracle) (s 
   | none =>
     if !lockFree s.b || s.entered ≥ callCap then none else
     match firstWaiting s.b with
-    | some k => some (enter c s k chk)
+    | some k => some (enter c s k (saneChk s.b k chk))
     | none => none
 
 def settleN [Inhabited χ] (c : Conf) (S : Searcher σ χ) (chk : CheckOracle) : Nat → St σ χ → St σ χ
